@@ -21,7 +21,7 @@ use crate::{
     ensure_that, fail,
     fixtures::{
         problems::{Instrumented, RealKind, RealP},
-        run::{dispatch, run_observed, run_spec_strategy, Audit, EvalKind, Phase, RunSpec, RunVisitor, StepEv},
+        run::{run_observed_auto, dispatch, run_observed, run_spec_strategy, Audit, EvalKind, Phase, RunSpec, RunVisitor, StepEv},
         state_with,
     },
     props::{c09::Fb, c16::TEMPLATE_NAMES},
@@ -331,7 +331,7 @@ impl RunVisitor for V7 {
         let tpl = spec.tpl.name();
         let Ok(cfg) = cfg else { return Ok(()) };
         let audit = Arc::new(Mutex::new(A7 { tpl, ..Default::default() }));
-        let res = run_observed(&cfg, &problem, spec.seed, EvalKind::Sequential, audit.clone());
+        let res = run_observed_auto(&cfg, &problem, spec.seed, EvalKind::Sequential, audit.clone());
         let a = audit.lock().unwrap();
         if a.passes >= 5 {
             self.classes |= 1;
